@@ -164,12 +164,12 @@ def lattice(tier):
     aligns = [False, True]
     if tier == "quick":
         tzs = [(None, 0), ("-u", 0), ("-z=-03:30", -210)]
-        dfmts = [None, "%Y-%m-%dT%H:%M:%S%.6f%:z"]
+        dfmts = [None, "%Y-%m-%dT%H:%M:%S%.6f%:z", "%Y-%m-%dT%H:%M:%S%.9f%:z__%Y%m%d__%H%M%S__epoch=%s"]
         pseps = [":", " - "]
         seps = [("", b""), ("XX", b"XX"), ("\\n\\t", b"\n\t"), ("~\\n", b"~\n")]
     else:
         tzs = [(None, 0), ("-u", 0), ("-l", 0), ("-z=-03:30", -210), ("-z=+05:45", 345), ("-z=+00", 0)]
-        dfmts = [None, "%s", "%Y-%m-%dT%H:%M:%S%.6f%:z", "%Y%m%d %H%M%S%.9f %z"]
+        dfmts = [None, "%s", "%Y-%m-%dT%H:%M:%S%.6f%:z", "%Y%m%d %H%M%S%.9f %z", "%Y-%m-%dT%H:%M:%S%.9f%:z__%Y%m%d__%H%M%S__epoch=%s"]
         pseps = [":", "|", " - ", ""]
         seps = [("", b""), ("XX", b"XX"), ("\\0", b"\x00"), ("\\n\\t", b"\n\t"), ("~\\n", b"~\n"), ("\\\\", b"\\")]
     for f, al, (tz, tzmin), df, ps, (sa, sb) in itertools.product(files, aligns, tzs, dfmts, pseps, seps):
@@ -178,8 +178,8 @@ def lattice(tier):
         yield {"file": f, "align": al, "tz": tz, "tz_min": tzmin, "dfmt": df, "psep": ps, "sep_arg": sa, "sepb": sb}
 
 
-def argv_of(opt, color, paths, blocksz=None):
-    a = ["--color", color, "-t", "+00:00"]
+def argv_of(opt, color, paths, blocksz=None, fallback="+00:00"):
+    a = ["--color", color, "-t=" + fallback]
     if blocksz:
         a += ["--blocksz", str(blocksz)]
     if opt["file"]:
@@ -296,20 +296,24 @@ def run(tier, seed, build=True):
             bszs = [None] if sname not in ("s5", "s6") else [None, 64]
             if sname == "s6" and tier == "quick":
                 use = opts[::3]
-            items = [(o, c, b) for o in use for c in ("never", "always") for b in bszs]
+            items = [(o, c, b, "+00:00") for o in use for c in ("never", "always") for b in bszs]
+            if sname == "s5":
+                # every stamp of this set carries its zone: the fallback zone (-t) may then change nothing, in particular not
+                # the zone the prepended datetime is rendered in when only -d FORMAT is given
+                items += [(o, c, None, "-07:30") for o in use for c in ("never",)]
 
             def one(it):
-                o, c, b = it
-                return it, common.run_s4(argv_of(o, c, paths, b), cwd=wd)
-            for (o, c, bsz), r in common.pmap(one, items):
+                o, c, b, fb = it
+                return it, common.run_s4(argv_of(o, c, paths, b, fb), cwd=wd)
+            for (o, c, bsz, fb), r in common.pmap(one, items):
                 res.count()
                 exp = expected_bytes(sources, o)
                 got = r.out if c == "never" else ESC.sub(b"", r.out)
-                res.distinct((sname, bsz, o["file"], o["align"], o["tz"], o["dfmt"], o["psep"], o["sep_arg"]))
+                res.distinct((sname, bsz, fb, o["file"], o["align"], o["tz"], o["dfmt"], o["psep"], o["sep_arg"]))
                 if r.timed_out or r.rc not in (0, 1) or got != exp:
                     # classify
                     feats = {"color": c, "file_field": o["file"] or "none", "align": o["align"], "has_dt": o["tz"] is not None or o["dfmt"] is not None,
-                             "sources": sname, "blocksz": bsz or "default"}
+                             "sources": sname, "blocksz": bsz or "default", "fallback_zone": fb}
                     if r.timed_out or r.rc not in (0, 1):
                         feats["symptom"] = "crash"
                     else:
@@ -327,8 +331,8 @@ def run(tier, seed, build=True):
                                     feats["wide_chars_in_names"] = any(dwidth(n) != len(n) for n in paths)
                                 break
                     res.violation(feats, "options %s: stdout differs from the reconstruction (first difference: got %r / expected %r)" % (
-                        " ".join(argv_of(o, c, paths, bsz)), _first_diff(got, exp)[0][:90], _first_diff(got, exp)[1][:90]),
-                        {"engine": "E-CLI", "args": argv_of(o, c, paths, bsz), "tree": sname, "expected_stdout": common.b64(exp), "strip_colour": c == "always"})
+                        " ".join(argv_of(o, c, paths, bsz, fb)), _first_diff(got, exp)[0][:90], _first_diff(got, exp)[1][:90]),
+                        {"engine": "E-CLI", "args": argv_of(o, c, paths, bsz, fb), "tree": sname, "expected_stdout": common.b64(exp), "strip_colour": c == "always"})
         res.sample({"argv": argv_of(opts[len(opts) // 3], "always", ["a.log", "sub/日本語のログ.log", "x.wtmp", "é.log"])})
         res.coverage["rule"] = ("complete product of {none,-n,-p} x {-w} x zone options x -d formats x --prepend-separator x --separator x --color {never,always} over source sets mixing "
                                 "multi-line text (last message without newline), accounting records, a journal (and an event log in the thorough tier), names of display width 1..20 incl. CJK; "
